@@ -709,11 +709,11 @@ theorem cm_case (t : Table) (g : Group) (k v flag dest : String) (n : Nargs)
     (hm : match t.lookup g.flag with
       | none => False
       | some o => match o.nargs with
-        | .zero => lowerAscii v = "true".toList
+        | .zero => isTrueWord v = true
         | .one => g.vals = [v]
         | .plus => splitLines v = g.vals)
     (hv : match n with
-      | .zero => lowerAscii v = "true".toList → configVal k v = .bool true
+      | .zero => isTrueWord v = true → configVal k v = .bool true
       | .one => configVal k v = .str v
       | .plus => configVal k v = .list (splitLines v)) :
     configDest k = g.dest t ∧ configVal k v = g.value t := by
@@ -951,7 +951,7 @@ theorem library_fields (t : Table) (hok : tableOK t = true) (ex : String → Boo
 theorem config_case (t : Table) (k f d : String) (n : Nargs)
     (hdoc : ∃ o, t.lookup f = some o ∧ o.dest = d ∧ o.nargs = n) (hcd : configDest k = d)
     (hv : match n with
-      | .zero => ∀ v, lowerAscii v = "true".toList → configVal k v = .bool true
+      | .zero => ∀ v, isTrueWord v = true → configVal k v = .bool true
       | .one => ∀ v, configVal k v = .str v
       | .plus => ∀ v, configVal k v = .list (splitLines v)) :
     ∃ o, t.lookup f = some o ∧ configDest k = o.dest ∧
@@ -959,7 +959,7 @@ theorem config_case (t : Table) (k f d : String) (n : Nargs)
         NS.get (parseConfig [(k, v)] ns) o.dest = some (configVal k v) ∧
         (o.nargs = .plus → configVal k v = Group.value t ⟨f, splitLines v⟩) ∧
         (o.nargs = .one → configVal k v = Group.value t ⟨f, [v]⟩) ∧
-        (o.nargs = .zero → lowerAscii v = "true".toList →
+        (o.nargs = .zero → isTrueWord v = true →
           configVal k v = Group.value t ⟨f, []⟩) := by
   obtain ⟨o, hl, hd, hn⟩ := hdoc
   refine ⟨o, hl, by rw [hcd, hd], fun v ns => ⟨?_, ?_, ?_, ?_⟩⟩
@@ -971,6 +971,102 @@ theorem config_case (t : Table) (k f d : String) (n : Nargs)
     simp [Group.value, hl, h, hv]
   · intro h ht; rw [h] at hn; subst hn; simp only at hv
     simp [Group.value, hl, h, hv v ht]
+
+/-! ### a switch at the end of the command line; boolean words in the configuration file -/
+
+theorem NS.set_eq_self (ns : Namespace) (k : String) (v : Val) (h : NS.get ns k = some v) :
+    NS.set ns k v = ns := by
+  induction ns with
+  | nil => simp [NS.get] at h
+  | cons e r ih =>
+    obtain ⟨q, c⟩ := e
+    by_cases hq : q = k
+    · simp only [NS.get, hq, ↓reduceIte, Option.some.injEq] at h
+      simp [NS.set, hq, h]
+    · simp only [NS.get, hq, ↓reduceIte] at h
+      simp [NS.set, hq, ih h]
+
+theorem argFeed_append (t : Table) (st : ArgState) (a b : List String) :
+    argFeed t st (a ++ b) = match argFeed t st a with
+      | .ok st' => argFeed t st' b
+      | .error e => .error e := by
+  induction a generalizing st with
+  | nil => rfl
+  | cons x r ih =>
+    simp only [List.cons_append, argFeed]
+    cases argStep t st x with
+    | error e => rfl
+    | ok st' => exact ih st'
+
+/-- Appending a switch (`store_true` option) to an accepted command line sets its keyword to
+    `True` and changes nothing else. -/
+theorem argparse_append_switch (t : Table) (toks : List String) (ns : Namespace)
+    (h : argparse t toks = .ok ns) (flag : String) (hd : isDash flag = true) (o : OptSpec)
+    (hl : t.lookup flag = some o) (hn : o.nargs = .zero) :
+    argparse t (toks ++ [flag]) = .ok (NS.set ns o.dest (.bool true)) := by
+  unfold argparse at h ⊢
+  rw [argFeed_append]
+  cases hf : argFeed t { ns := t.defaults, posDone := false, mode := .idle } toks with
+  | error e => simp [hf] at h
+  | ok st =>
+    simp only [hf] at h ⊢
+    cases hc : argCommit st with
+    | error e => simp [hc] at h
+    | ok st' =>
+      simp only [hc, Except.ok.injEq] at h
+      have hidle : st'.mode = .idle := by
+        unfold argCommit at hc
+        cases hm : st.mode with
+        | idle => simp only [hm, Except.ok.injEq] at hc; rw [← hc]; exact hm
+        | one d c => simp [hm] at hc
+        | plus d acc =>
+          simp only [hm] at hc
+          split at hc
+          · cases hc
+          · simp only [Except.ok.injEq] at hc; rw [← hc]
+      simp only [argFeed, argStep, hd, ↓reduceIte, hc, hl, hn]
+      simp only [argCommit, hidle, h]
+
+theorem configVal_bool_key (key w : String)
+    (hk : key = "private" ∨ key = "align" ∨ key = "magnet" ∨ key = "cwd") :
+    (isTrueWord w = true → configVal key w = .bool true) ∧
+    (isTrueWord w = false → isFalseWord w = true → configVal key w = .bool false) ∧
+    (isTrueWord w = false → isFalseWord w = false → configVal key w = .str w) := by
+  rcases hk with h | h | h | h <;> subst h <;>
+  refine ⟨fun h1 => by simp [configVal, h1], fun h1 h2 => by simp [configVal, h1, h2],
+    fun h1 h2 => by simp [configVal, h1, h2]⟩
+
+theorem falseWord_not_trueWord (w : String) (h : isFalseWord w = true) : isTrueWord w = false := by
+  unfold isFalseWord at h
+  unfold isTrueWord
+  generalize lowerAscii w = l at h ⊢
+  simp only [falseWords, List.contains_iff_mem, List.mem_cons, List.not_mem_nil, or_false] at h
+  rcases h with rfl | rfl | rfl | rfl <;> decide
+
+theorem config_bool_core (t : Table) (key flag d : String)
+    (hdoc : ∃ o, t.lookup flag = some o ∧ o.dest = d ∧ o.nargs = Nargs.zero)
+    (hcd : configDest key = d) (hdash : isDash flag = true)
+    (hkey : key = "private" ∨ key = "align" ∨ key = "magnet" ∨ key = "cwd")
+    (w : String) (toks : List String) (ns : Namespace) (h : argparse t toks = .ok ns) :
+    ∃ o, t.lookup flag = some o ∧ o.nargs = .zero ∧ configDest key = o.dest ∧
+      (isTrueWord w = true →
+        argparse t (toks ++ [flag]) = .ok (parseConfig [(key, w)] ns)) ∧
+      (isFalseWord w = true →
+        parseConfig [(key, w)] ns = NS.set ns o.dest (.bool false) ∧
+        (NS.get ns o.dest = some (.bool false) → parseConfig [(key, w)] ns = ns)) ∧
+      (isTrueWord w = false → isFalseWord w = false →
+        parseConfig [(key, w)] ns = NS.set ns o.dest (.str w) ∧
+        ((Val.str w).truthy = true ↔ w ≠ "")) := by
+  obtain ⟨o, hl, hd, hn⟩ := hdoc
+  obtain ⟨b1, b2, b3⟩ := configVal_bool_key key w hkey
+  have hpc : ∀ v, configVal key w = v → parseConfig [(key, w)] ns = NS.set ns o.dest v := by
+    intro v hv; simp [parseConfig, hcd, hd, hv]
+  refine ⟨o, hl, hn, by rw [hcd, hd], fun ht => ?_, fun hf => ⟨?_, fun hg => ?_⟩, fun ht hf => ⟨?_, ?_⟩⟩
+  · rw [hpc _ (b1 ht)]; exact argparse_append_switch t toks ns h flag hdash o hl hn
+  · exact hpc _ (b2 (falseWord_not_trueWord w hf) hf)
+  · rw [hpc _ (b2 (falseWord_not_trueWord w hf) hf)]; exact NS.set_eq_self ns _ _ hg
+  · exact hpc _ (b3 ht hf)
+  · simp [Val.truthy]
 
 end Impl
 end TorrentVerif
